@@ -7,8 +7,10 @@ Import ListNotations.
 Theorem C16_halted_refuted :
   exists m', py_load (py_save (wit true false)) (wit false false) = Some m' /\ m_halted m' <> m_halted (wit true false).
 Proof. exact halted_not_restored. Qed.
+Print Assumptions C16_halted_refuted.
 
 (* a latched key interrupt is forgotten *)
 Theorem C16_key_latch_refuted :
   exists m', py_load (py_save (wit false true)) (wit false false) = Some m' /\ m_key_latched m' <> m_key_latched (wit false true).
 Proof. exact latch_not_restored. Qed.
+Print Assumptions C16_key_latch_refuted.
